@@ -96,6 +96,19 @@ def respond (line : String) : String :=
       match Dsl.parse codes text with
       | .error e => showParseErr e
       | .ok ts => s!"ok {ts.length}" ++ String.join (ts.map (fun t => " " ++ showDTx t))
+  | ["tojson", tx] =>
+    match parseDTx? tx with
+    | some t => "ok " ++ showJV (Json.toJ t)
+    | none => "bad-request"
+  | ["fromjson", valid, jv] =>
+    match parseJV? jv with
+    | none => "bad-request"
+    | some v =>
+      let codes := if valid = "-" then [] else valid.splitOn ";"
+      match Json.fromJ codes v with
+      | .ok t => "ok " ++ showDTx t
+      | .reject => "reject"
+      | .unmodelled => "unmodelled"
   | "write" :: txs =>
     match parseAll parseDTx? (txs.filter (· ≠ "")) with
     | none => "bad-request"
